@@ -365,6 +365,12 @@ def evaluate(plan, ctx):
             if [ops.py(a) for a in mab.arms] != arms_before:
                 raise Violation("arms_changed", "step %d: rejected %s (%s) changed mab.arms from %r to %r"
                                 % (i, kind, type(exc).__name__, arms_before, mab.arms), bucket="arms_changed:" + kind)
+            for q in (["policies"], ["cold_arms"]):
+                oq, ob = ops.apply_op(mab, q), ops.apply_op(before, q)
+                if not ops.outputs_equal(oq, ob):
+                    raise Violation("state_changed", "step %d: rejected %s (%s) changed %s from %s to %s"
+                                    % (i, kind, type(exc).__name__, q[0], ops.short(ob), ops.short(oq)),
+                                    bucket="state_changed:%s:%s" % (kind, q[0]))
             if streams.positions(mab) != pos_before:
                 ev.add("rejected_call_consumed_randomness")
             twins.append((i, kind, type(exc).__name__, before))
